@@ -10,6 +10,14 @@ CONSTANTS
   WithReopen = FALSE
   WithCenter = TRUE
   Repaired = FALSE
+  Contents <- AllContents
+  SizeClasses = {"s"}
+  MaxBig = 0
+  WriteLimit = 128
+  MergeLimit = 333
+  CacheChoices = {FALSE}
+  ReadOptional = FALSE
+  Purge = TRUE
 VIEW view
 INVARIANTS ImplAgreesProofByBlockHeight
 CHECK_DEADLOCK FALSE
